@@ -645,6 +645,68 @@ Definition identical_top (a b : topconst) : Prop :=
   | _, _ => False
   end.
 
+(* ---- frozenset keys since a8197db74 ("equal frozenset constants are shared again whatever their
+   item order"): of the item keys only the FIRST one per Python value is kept, in a frozenset:
+       first_items = {}
+       for item_key in item_keys: first_items.setdefault(_dedup_key_value(item_key), item_key)
+       return outer_type, frozenset(first_items.values())
+   (os = false / true above are the two earlier variants: all item keys in a frozenset / in a tuple) *)
+
+(* _dedup_key_value: the Python value an item key stands for -- constant_result of a leaf, the
+   tuple of the item values of a container key (for a sequence the first item is the multiplier
+   entry or None: the multiplier is NOT applied) *)
+Fixpoint key_value (k : key) : pyconst :=
+  match k with
+  | KLeaf _ v _ _ => CScalar v
+  | KCont _ _ l => CSeq TPyTuple (map key_value l)
+  end.
+
+(* dict.setdefault by value: the elements whose value is not == to the value of an earlier one *)
+Fixpoint first_by {T} (val : T -> pyconst) (seen : list pyconst) (l : list T) : list T :=
+  match l with
+  | [] => []
+  | x :: r => if existsb (fun s => py_eq s (val x)) seen then first_by val seen r
+              else x :: first_by val (seen ++ [val x]) r
+  end.
+
+(* a sequence with an effective multiplier somewhere in the item *)
+Fixpoint has_mult (n : cnode) : bool :=
+  match n with
+  | NSeq _ literal mult args =>
+      (match (if literal then mult else None) with Some _ => true | None => false end)
+      || existsb has_mult args
+  | NSlice _ a b c => has_mult a || has_mult b || has_mult c
+  | _ => false
+  end.
+
+(* guard = false: the code as it is.  guard = true: the repaired code (proposed_fixes/
+   C09-frozenset_multiplied_tuple_merged.diff), which does not pool a frozenset that has a
+   multiplied sequence among its items *)
+Definition frozen_key (fx guard : bool) (args : list cnode) : option key :=
+  if guard && existsb has_mult args then None else
+  match all_some (map (item_key fx true) args) with
+  | Some ks => Some (KCont TPyFrozenset true (first_by key_value [] ks))
+  | None => None
+  end.
+
+Definition top_key2 (fx guard : bool) (t : topnode) : option key :=
+  match t with
+  | TopFrozen args => frozen_key fx guard args
+  | _ => top_key fx true t
+  end.
+
+(* the items of a frozenset are hashable: scalars and tuples of hashable items *)
+Fixpoint hashable (n : cnode) : bool :=
+  match n with
+  | NLeaf _ _ => true
+  | NSeq ty _ _ args => ntype_eqb ty TPyTuple && forallb hashable args
+  | _ => false
+  end.
+Definition wf_top2 (t : topnode) : bool :=
+  wf_top t && match t with TopFrozen args => forallb hashable args | _ => true end.
+Definition top_has_mult (t : topnode) : bool :=
+  match t with TopFrozen args => existsb has_mult args | _ => false end.
+
 (* ------------------------------------------------------------------ *)
 (* 5. ConstantFolding on the int / bool fragment                       *)
 (* ------------------------------------------------------------------ *)
